@@ -3,6 +3,7 @@ transitive star imports, build the class hierarchy (C3), method tables and
 attribute store/read tables.  Nothing of the analysed package is imported."""
 import ast
 import hashlib
+import json
 import os
 import warnings
 
@@ -938,6 +939,7 @@ class ModuleInfo:
         except SyntaxError as e:
             raise AnalysisError("syntax error in %s: %s" % (path, e))
         self.memos = strip_unknown_memoisations(self.tree, set())     # the pinned tree has no whole-method memo
+        assume_new_caches_miss(self.tree, name)
         unmove_static_aliases(self.tree)
         unroll_reflective_loops(self.tree)
         propagate_constant_locals(self.tree)
@@ -1400,6 +1402,245 @@ def strip_unknown_memoisations(tree, known):
                 fn.body.remove(s_)
         done.append((cname, fn.name, attr, fn.lineno))
     return done
+
+
+# ------------------------------------------------------------------ caches the pinned tree does not have: analysed as if they always missed
+_KNOWN_ATTRS = None
+
+
+def _known_attrs():
+    global _KNOWN_ATTRS
+    if _KNOWN_ATTRS is None:
+        path = os.path.join(os.path.dirname(os.path.abspath(__file__)), "known_attrs.json")
+        try:
+            with open(path) as fh:
+                _KNOWN_ATTRS = json.load(fh)
+        except (OSError, ValueError):
+            _KNOWN_ATTRS = {}
+    return _KNOWN_ATTRS
+
+
+def _is_empty_dict(v):
+    return (isinstance(v, ast.Dict) and not v.keys) or (isinstance(v, ast.Call) and isinstance(v.func, ast.Name) and v.func.id in ("dict", "OrderedDict")
+                                                        and not v.args and not v.keywords)
+
+
+def assume_new_caches_miss(tree, modname):
+    """A dict kept in an instance attribute, a class attribute or a module-level name that the pinned tree does not have
+    (sa/known_attrs.json), and that a function uses only as a lookup table (`k in C`, `C.get(k)`, `C[k]`, `C[k] = v`,
+    `C.setdefault(k, v)`), is a cache added by a later change.  For the analysis every lookup misses: `k in C` is False, `C.get(k)` is
+    None, the stored value is bound to a temporary that later `C[k]` loads of the same key read.  The computation is then analysed as if
+    it ran on every call; whether the cache can go stale is a separate obligation (sa/statecheck.py S2).  Returns the number of
+    rewritten functions."""
+    known = _known_attrs()
+    if not known:
+        return 0
+    kmods = set(known.get("modules", {}).get(modname, []))
+    new_globals = set()
+    for st in tree.body:
+        if isinstance(st, ast.Assign) and len(st.targets) == 1 and isinstance(st.targets[0], ast.Name) and _is_empty_dict(st.value) \
+                and st.targets[0].id not in kmods:
+            new_globals.add(st.targets[0].id)
+    done = 0
+
+    def classes(node, prefix):
+        for st in node.body:
+            if isinstance(st, ast.ClassDef):
+                yield prefix + "." + st.name, st
+                yield from classes(st, prefix + "." + st.name)
+    for cq, cdef in list(classes(tree, modname)):
+        kattrs = known.get("classes", {}).get(cq)
+        new_class = kattrs is None
+        kattrs = set(kattrs or [])
+        class_level = {t.id for st in cdef.body if isinstance(st, ast.Assign) and _is_empty_dict(st.value)
+                       for t in st.targets if isinstance(t, ast.Name) and (new_class or t.id not in kattrs)}
+        inst_new = set()
+        for fn in [m for m in cdef.body if isinstance(m, ast.FunctionDef)]:
+            if not fn.args.args:
+                continue
+            me = fn.args.args[0].arg
+            for n in ast.walk(fn):
+                if isinstance(n, ast.Assign) and _is_empty_dict(n.value):
+                    for t in n.targets:
+                        if isinstance(t, ast.Attribute) and isinstance(t.value, ast.Name) and t.value.id == me and (new_class or t.attr not in kattrs):
+                            inst_new.add(t.attr)
+        if not (class_level or inst_new or new_globals):
+            continue
+        for fn in [m for m in cdef.body if isinstance(m, ast.FunctionDef)]:
+            static = any(isinstance(d, ast.Name) and d.id == "staticmethod" for d in fn.decorator_list)
+            me = fn.args.args[0].arg if fn.args.args and not static else None
+
+            def container(e):
+                if isinstance(e, ast.Attribute) and isinstance(e.value, ast.Name):
+                    if me and e.value.id == me and e.attr in inst_new:
+                        return "self." + e.attr
+                    if e.value.id in (cdef.name, "cls") and e.attr in class_level:
+                        return "cls." + e.attr
+                    if me and e.value.id == me and e.attr in class_level:
+                        return "cls." + e.attr
+                if isinstance(e, ast.Name) and e.id in new_globals:
+                    return "glob." + e.id
+                return None
+            if _rewrite_cache_uses(fn, container):
+                done += 1
+    for fn in [m for m in tree.body if isinstance(m, ast.FunctionDef)]:
+        if new_globals and _rewrite_cache_uses(fn, lambda e: ("glob." + e.id) if isinstance(e, ast.Name) and e.id in new_globals else None):
+            done += 1
+    return done
+
+
+def _rewrite_cache_uses(fn, container):
+    """rewrite one function; False (and nothing changed) unless every use of the containers in it is a lookup-table idiom"""
+    uses = []
+    parents = {}
+    for p_ in ast.walk(fn):
+        for c_ in ast.iter_child_nodes(p_):
+            parents[id(c_)] = p_
+    for n in ast.walk(fn):
+        cid = container(n) if isinstance(n, (ast.Attribute, ast.Name)) else None
+        if cid is None:
+            continue
+        if isinstance(n, ast.Name) and isinstance(n.ctx, ast.Store):
+            return False
+        par = parents.get(id(n))
+        kind = None
+        if isinstance(par, ast.Compare) and len(par.ops) == 1 and isinstance(par.ops[0], (ast.In, ast.NotIn)) and par.comparators[0] is n:
+            kind = "member"
+        elif isinstance(par, ast.Attribute) and par.value is n and par.attr in ("get", "setdefault") and isinstance(parents.get(id(par)), ast.Call) \
+                and parents[id(par)].func is par:
+            kind = par.attr
+        elif isinstance(par, ast.Subscript) and par.value is n:
+            kind = "load" if isinstance(par.ctx, ast.Load) else "store"
+            gp = parents.get(id(par))
+            if kind == "store" and not (isinstance(gp, ast.Assign) and len(gp.targets) == 1 and gp.targets[0] is par):
+                return False
+        elif isinstance(par, ast.Assign) and isinstance(n, ast.Attribute) and n in par.targets and _is_empty_dict(par.value):
+            kind = "create"
+        else:
+            return False
+        uses.append((n, par, kind, cid))
+    if not any(k in ("member", "get", "setdefault", "load") for (_n, _p, k, _c) in uses):
+        return False
+    counter = [0]
+    temps = {}          # (container id, dump of key) -> temp name
+
+    def temp_for(cid, key):
+        k_ = (cid, ast.dump(key))
+        if k_ not in temps:
+            counter[0] += 1
+            temps[k_] = "_cached_value_%d" % counter[0]
+        return temps[k_]
+    # stores first (they define the temporaries)
+    for (n, par, kind, cid) in uses:
+        if kind == "store":
+            assign = parents[id(par)]
+            assign.targets = [ast.copy_location(ast.Name(id=temp_for(cid, par.slice), ctx=ast.Store()), par)]
+
+    class Rw(ast.NodeTransformer):
+        def visit_Compare(self, node):
+            self.generic_visit(node)
+            if len(node.ops) == 1 and isinstance(node.ops[0], (ast.In, ast.NotIn)) and container(node.comparators[0]) is not None:
+                return ast.copy_location(ast.Constant(value=isinstance(node.ops[0], ast.NotIn)), node)
+            return node
+
+        def visit_Call(self, node):
+            self.generic_visit(node)
+            f_ = node.func
+            if isinstance(f_, ast.Attribute) and f_.attr in ("get", "setdefault") and container(f_.value) is not None and node.args:
+                if f_.attr == "get":
+                    return ast.copy_location(node.args[1] if len(node.args) > 1 else ast.Constant(value=None), node)
+                return ast.copy_location(node.args[1] if len(node.args) > 1 else ast.Constant(value=None), node)
+            return node
+
+        def visit_Subscript(self, node):
+            self.generic_visit(node)
+            cid = container(node.value)
+            if cid is not None and isinstance(node.ctx, ast.Load):
+                k_ = (cid, ast.dump(node.slice))
+                if k_ in temps:
+                    return ast.copy_location(ast.Name(id=temps[k_], ctx=ast.Load()), node)
+            return node
+    Rw().visit(fn)
+    _fold_constant_tests(fn)
+    # temporaries nobody reads, and `x = None` that the very next statement overwrites (left over from `x = C.get(k)`)
+    loaded = {n.id for n in ast.walk(fn) if isinstance(n, ast.Name) and isinstance(n.ctx, ast.Load)}
+
+    def clean(block):
+        out = []
+        for k, st in enumerate(block):
+            for field in ("body", "orelse", "finalbody"):
+                sub = getattr(st, field, None)
+                if isinstance(sub, list) and sub and isinstance(sub[0], ast.stmt):
+                    setattr(st, field, clean(sub) or [ast.Pass()])
+            if isinstance(st, ast.Assign) and len(st.targets) == 1 and isinstance(st.targets[0], ast.Name):
+                nm = st.targets[0].id
+                if nm.startswith("_cached_value_") and nm not in loaded and isinstance(st.value, (ast.Name, ast.Constant)):
+                    continue
+                nxt = block[k + 1] if k + 1 < len(block) else None
+                if isinstance(st.value, ast.Constant) and st.value.value is None and isinstance(nxt, ast.Assign) and len(nxt.targets) == 1 \
+                        and isinstance(nxt.targets[0], ast.Name) and nxt.targets[0].id == nm \
+                        and not any(isinstance(y, ast.Name) and y.id == nm for y in ast.walk(nxt.value)):
+                    continue
+            out.append(st)
+        return out
+    fn.body = clean(fn.body) or [ast.Pass()]
+    ast.fix_missing_locations(fn)
+    return True
+
+
+def _fold_constant_tests(fn):
+    """`if False: A else: B` -> B, `if True: A` -> A, `x = None` directly followed by `if x is None: A [else: B]` -> `x = None; A`,
+    `c and True` -> c, `c and False` -> False (only what the rewrite above produces)"""
+    def simp(e):
+        if isinstance(e, ast.BoolOp):
+            vals = [simp(v) for v in e.values]
+            if isinstance(e.op, ast.And):
+                if any(isinstance(v, ast.Constant) and v.value is False for v in vals):
+                    return ast.Constant(value=False)
+                vals = [v for v in vals if not (isinstance(v, ast.Constant) and v.value is True)]
+            else:
+                if any(isinstance(v, ast.Constant) and v.value is True for v in vals):
+                    return ast.Constant(value=True)
+                vals = [v for v in vals if not (isinstance(v, ast.Constant) and v.value is False)]
+            if not vals:
+                return ast.Constant(value=isinstance(e.op, ast.And))
+            return vals[0] if len(vals) == 1 else ast.BoolOp(op=e.op, values=vals)
+        if isinstance(e, ast.UnaryOp) and isinstance(e.op, ast.Not):
+            o = simp(e.operand)
+            if isinstance(o, ast.Constant) and isinstance(o.value, bool):
+                return ast.Constant(value=not o.value)
+            return ast.UnaryOp(op=e.op, operand=o)
+        return e
+
+    def fold_block(block):
+        out = []
+        k = 0
+        while k < len(block):
+            st = block[k]
+            for field in ("body", "orelse", "finalbody"):
+                sub = getattr(st, field, None)
+                if isinstance(sub, list) and sub and isinstance(sub[0], ast.stmt):
+                    setattr(st, field, fold_block(sub) or [ast.Pass()])
+            if isinstance(st, ast.If):
+                st.test = simp(st.test)
+                t = st.test
+                prev = out[-1] if out else None
+                none_name = prev.targets[0].id if (isinstance(prev, ast.Assign) and len(prev.targets) == 1 and isinstance(prev.targets[0], ast.Name)
+                                                   and isinstance(prev.value, ast.Constant) and prev.value.value is None) else None
+                if isinstance(t, ast.Compare) and len(t.ops) == 1 and isinstance(t.ops[0], (ast.Is, ast.IsNot)) and isinstance(t.left, ast.Name) \
+                        and t.left.id == none_name and isinstance(t.comparators[0], ast.Constant) and t.comparators[0].value is None:
+                    t = ast.Constant(value=isinstance(t.ops[0], ast.Is))
+                if isinstance(t, ast.Constant) and isinstance(t.value, bool):
+                    chosen = st.body if t.value else st.orelse
+                    out.extend([x for x in chosen if not isinstance(x, ast.Pass)])
+                    k += 1
+                    continue
+            elif isinstance(st, ast.While):
+                st.test = simp(st.test)
+            out.append(st)
+            k += 1
+        return out
+    fn.body = fold_block(fn.body) or [ast.Pass()]
 
 
 def inline_named_conditions(tree):
